@@ -85,6 +85,9 @@ ASSUMPTIONS = [
     "of 2048 points; the normalisation oracle is asserted only when "
     "8*cv/sqrt(2048) < 5e-2 (cv = relative spread of the acceptance function "
     "under the base, computed by quadrature)",
+    "logit pre-transform: generated points closer than 2e-6 to a face of "
+    "the unit box (glasflow clamps at 1e-6, float32 sigmoids saturate) are "
+    "not compared",
     "samples whose latent image lies within 1e-3 of the boundary of a "
     "uniform base distribution are not compared (discontinuous density); "
     "the uniform base is not combined with volume-preserving couplings (the "
@@ -276,6 +279,17 @@ def _points(case):
         r = np.sqrt((z**2).sum(axis=1, keepdims=True))
         z = sd * z * np.minimum(1.0, 4.0 / np.maximum(r, 1e-12))
     return x, z
+
+
+def _interior(cfg, x):
+    """Rows of x usable for inverse -> forward comparisons.  With the logit
+    pre-transform the data space is the unit box; glasflow clamps inputs to
+    [1e-6, 1 - 1e-6] and float32 sigmoids saturate to exactly 0 or 1, so a
+    generated point closer than 2e-6 to a face is outside the invertible
+    domain."""
+    if not _unit_data(cfg):
+        return np.ones(len(x), dtype=bool)
+    return (np.minimum(x, 1 - x) > 2e-6).all(axis=1)
 
 
 def _base_var(cfg):
@@ -550,13 +564,16 @@ def _check_flow(case, out, dname, dtype):
     s_z, s_lj, _ = twin.sens("F", x1)
     if n_bn:
         s_z = s_lj = None
+    in1 = _interior(cfg, x1)
     meas["rt_z"] = ck.close(
-        rtz_key, z1, z0, tol, "forward(inverse(z)) vs z" + why_bn, sens=s_z
+        rtz_key, z1[in1], z0[in1], tol,
+        "forward(inverse(z)) vs z" + why_bn,
+        sens=None if s_z is None else s_z[in1],
     )
     ck.close(
-        lj_key, ljf1, -lji1, tol,
+        lj_key, ljf1[in1], -lji1[in1], tol,
         "log|det forward|(inverse(z)) vs -log|det inverse|(z)" + why_bn,
-        sens=s_lj,
+        sens=None if s_lj is None else s_lj[in1],
     )
 
     # ---- 3. array level == torch level
@@ -648,10 +665,10 @@ def _check_flow(case, out, dname, dtype):
     ck.finite(K_BN if n_bn else "nan:sample", xs1,
               "samples from sample_and_log_prob" + why_bn)
     lp_at = _nessai("FlowModel.log_prob", case, fm.log_prob, xs1)
-    keep = np.ones(n, dtype=bool)
+    keep = _interior(cfg, xs1)
     if uniform:
         zz, _ = fm.forward_and_log_prob(xs1)
-        keep = (np.minimum(zz, 1 - zz) > 1e-3).all(axis=1)
+        keep &= (np.minimum(zz, 1 - zz) > 1e-3).all(axis=1)
     meas["n_density_points"] = int(keep.sum())
     _, _, s_lp = twin.sens("F", xs1)
     meas["density"] = ck.close(
@@ -663,9 +680,9 @@ def _check_flow(case, out, dname, dtype):
     lp_at1 = _nessai("FlowModel.log_prob", case, fm.log_prob, xs)
     _, _, s_lp = twin.sens("F", xs)
     ck.close(
-        key4, lps, lp_at1, tol,
+        key4, lps[in1], lp_at1[in1], tol,
         "sample_and_log_prob(z=..) density vs log_prob at the returned point"
-        + why_bn, sens=s_lp,
+        + why_bn, sens=s_lp[in1],
     )
 
     # ---- 5. two dimensions: the density integrates to one
